@@ -224,6 +224,13 @@ type Sched struct {
 	// PassTimeWeight > 0 offers "let time pass by a quantum" even when events are enabled.
 	PassTimeWeight int
 	Quanta         []time.Duration
+	// StallWeight > 0 offers, while runnable tasks are parked at yield points, to keep all of them
+	// parked for a quantum of simulated time (a descheduled goroutine, a busy machine): timers
+	// that fall due in between fire and their goroutines run first. Stalled accumulates the time
+	// injected this way; oracles that bound durations add it as scheduling slack.
+	StallWeight int
+	StallQuanta []time.Duration
+	Stalled     time.Duration
 }
 
 func newSched(ep *Episode) *Sched {
@@ -432,8 +439,22 @@ func (s *Sched) Run(done func() bool) RunResult {
 		if s.PassTimeWeight > 0 && !urgent {
 			w = append(w, s.PassTimeWeight)
 		}
+		stallIdx := -1
+		if s.StallWeight > 0 && urgent && len(s.StallQuanta) > 0 {
+			stallIdx = len(w)
+			w = append(w, s.StallWeight)
+		}
 		i := s.ep.Tape.Weighted("ev", w)
 		s.Steps++
+		if i == stallIdx {
+			q := s.StallQuanta[s.ep.Tape.Choose("stallq", len(s.StallQuanta))]
+			s.ep.Logf("step %d: stall %v", s.Steps, q)
+			s.ep.Fault("sched-stall")
+			t0 := time.Now()
+			s.passTime(q)
+			s.Stalled += time.Since(t0)
+			continue
+		}
 		if i == len(evs) {
 			q := s.Quanta[s.ep.Tape.Choose("quantum", len(s.Quanta))]
 			s.ep.Logf("step %d: pass-time %v", s.Steps, q)
